@@ -117,6 +117,7 @@ var c14Scenarios = []c14Scenario{
 }
 
 type c14World struct {
+	real   bool // hand the library the real store cursors instead of proxies (race pass)
 	b      *impl.Binding
 	tree   *ytree
 	yroot  *ycursor
@@ -157,12 +158,18 @@ func newC14World(sc c14Scenario) *c14World {
 func (w *c14World) reset() {
 	b := w.b
 	var bs, cs []store.Cursor
+	pick := func(c store.Cursor) store.Cursor {
+		if w.real {
+			return c
+		}
+		return w.tree.wrap[c]
+	}
 	for _, n := range b.Doc.Nodes {
 		if n.Kind == adoc.Elem && n.Local == "b" {
-			bs = append(bs, w.tree.wrap[b.ToCur[n]])
+			bs = append(bs, pick(b.ToCur[n]))
 		}
 		if n.Kind == adoc.Elem && n.Local == "c" {
-			cs = append(cs, w.tree.wrap[b.ToCur[n]])
+			cs = append(cs, pick(b.ToCur[n]))
 		}
 	}
 	w.slotV = make(xsel.NodeSet, 0, len(bs)+4)
@@ -183,6 +190,9 @@ func (w *c14World) settings() []xsel.ContextApply {
 }
 
 func (w *c14World) ctx(path string) store.Cursor {
+	if w.real {
+		return w.b.ToCur[w.b.Doc.Resolve(path)]
+	}
 	return w.tree.wrap[w.b.ToCur[w.b.Doc.Resolve(path)]]
 }
 
@@ -196,6 +206,8 @@ func (w *c14World) outcome(r xsel.Result, err error) string {
 		for i, c := range v {
 			if y, ok := c.(*ycursor); ok {
 				ids[i] = w.b.ToNode[y.c].ID
+			} else if n, ok := w.b.ToNode[c]; ok {
+				ids[i] = n.ID
 			} else {
 				ids[i] = -1
 			}
@@ -447,18 +459,34 @@ func C14Race(args []string) int {
 		for _, sc := range c14Scenarios {
 			w := newC14World(sc)
 			w.tree.free = true
+			if round%2 == 1 {
+				// every other round on the real in-memory cursors
+				w.real = true
+				w.reset()
+			}
+			serial := c14Serial(sc)
+			results := make([][]string, len(sc.Threads))
 			var wg sync.WaitGroup
-			for _, calls := range sc.Threads {
-				calls := calls
+			for ti, calls := range sc.Threads {
+				ti, calls := ti, calls
+				results[ti] = make([]string, len(calls))
 				wg.Add(1)
 				go func() {
 					defer wg.Done()
-					for _, c := range calls {
-						w.exec(c)
+					for ci, c := range calls {
+						results[ti][ci] = w.exec(c)
 					}
 				}()
 			}
 			wg.Wait()
+			for ti := range results {
+				for ci := range results[ti] {
+					if results[ti][ci] != serial[ti][ci] {
+						fmt.Printf("DATA RACE (observed): scenario %q thread %d call %d returned %s, serially %s\n", sc.Name, ti, ci, results[ti][ci], serial[ti][ci])
+						return 1
+					}
+				}
+			}
 		}
 	}
 	fmt.Println("race pass done")
